@@ -26,7 +26,9 @@ META = {
             "anywhere) goes through the same worlds and executions as the histories of the theorems, so "
             "incremental = clean, the no-op rebuild and 'a failed rule is not remembered' hold for it; for a "
             "memo kept across calls the statement is refuted (subset, edit, other subset: stale lists; fail, "
-            "again: 'succeeds').  The "
+            "again: 'succeeds'); likewise the parse of the BUILD files, which expands Select patterns against the "
+            "source tree, is per Build call (Caco/BuildParse.v; refuted for parsed files kept on the Builder: an "
+            "added file is not listed, a removed one fails the build).  The "
             "model is tied to the code on every run by replaying generated histories against the real "
             "caco3.Builder - half of them with a new Builder per build, half on one long-lived Builder per "
             "configuration - (result, executed rules and the whole out/ tree compared inside Coq after every build), "
